@@ -33,6 +33,7 @@ const (
 	objA = 0 // small
 	objB = 1 // big (above the flush batch threshold)
 	tsA  = 2 // tombstone for A
+	lkB  = 3 // lock for B
 )
 
 var sizes = []int{4, 60}
@@ -52,6 +53,7 @@ func ops() []opT {
 		{"MarkRedundant(B)", func(w *ss.World) { w.Sh.MarkGarbage(ss.Cnr, ids(objB), meta.GarbageMarkRedundant) }},
 		{"Delete(A)", func(w *ss.World) { w.Sh.Delete(ss.Cnr, ids(objA)) }},
 		{"Delete(B)", func(w *ss.World) { w.Sh.Delete(ss.Cnr, ids(objB)) }},
+		{"Put(Lock->B)", func(w *ss.World) { w.Sh.Put(ss.Lock(lkB, objB, 0), nil) }},
 		{"GCPass", func(w *ss.World) { w.Sh.VerifSSGCPass() }},
 		{"Flush", func(w *ss.World) { w.Sh.FlushWriteCache(false) }},
 	}
@@ -74,7 +76,7 @@ type result struct {
 }
 
 var blobs = func() map[int][]byte {
-	m := map[int][]byte{objA: ss.Obj(objA, sizes[objA]).Marshal(), objB: ss.Obj(objB, sizes[objB]).Marshal(), tsA: ss.Tombstone(tsA, objA, 0).Marshal()}
+	m := map[int][]byte{objA: ss.Obj(objA, sizes[objA]).Marshal(), objB: ss.Obj(objB, sizes[objB]).Marshal(), tsA: ss.Tombstone(tsA, objA, 0).Marshal(), lkB: ss.Lock(lkB, objB, 0).Marshal()}
 	return m
 }()
 
@@ -223,12 +225,12 @@ func checkImage(im image, res *result) (string, string) {
 			}
 		}
 		if !ok {
-			kind := map[int]string{objA: "regular-small", objB: "regular-big", tsA: "tombstone"}[i]
+			kind := map[int]string{objA: "regular-small", objB: "regular-big", tsA: "tombstone", lkB: "lock"}[i]
 			last := "none"
 			if len(im.After) > 0 {
 				last = im.After[len(im.After)-1]
 			}
-			last = strings.NewReplacer("(A)", "", "(B)", "", "(T->A)", "-tombstone").Replace(last)
+			last = strings.NewReplacer("(A)", "", "(B)", "", "(T->A)", "-tombstone", "(Lock->B)", "-lock").Replace(last)
 			return fmt.Sprintf("available-in-metadata-but-unreadable:%s:crash-during-%s:write-cache=%v", kind, last, res.WC),
 				fmt.Sprintf("object %d is reported available by the metabase but is in neither the blobstor nor the write-cache", i)
 		}
@@ -246,7 +248,7 @@ func main() {
 	if r.Thorough() {
 		scs = append(scs, scenario(true, 3, 1))
 	}
-	r.Rule(fmt.Sprintf("every history of <=%d operations over {Put(A small), Put(B big), Put(tombstone->A), MarkGarbage(A), MarkRedundant(B), Delete(A), Delete(B), GC pass, FlushWriteCache} with and without write-cache (default schedule; thorough also <=1 preemption for depth 3), a crash image at every scheduling point (lock, channel, blobstor call, metabase call) and after every operation; distinct images reopened and checked; non-trivial = distinct (write-cache, multiset of operations) classes", depth))
+	r.Rule(fmt.Sprintf("every history of <=%d operations over {Put(A small), Put(B big), Put(tombstone->A), MarkGarbage(A), MarkRedundant(B), Delete(A), Delete(B), Put(lock->B), GC pass, FlushWriteCache} with and without write-cache (default schedule; thorough also <=1 preemption for depth 3), a crash image at every scheduling point (lock, channel, blobstor call, metabase call) and after every operation; distinct images reopened and checked; non-trivial = distinct (write-cache, multiset of operations) classes", depth))
 	r.Assume("process-crash model: the copied files are what the kernel holds at that point; a metabase call (one bbolt transaction) is atomic", "the write-cache FSTree and the blobstor FSTree write whole files (no combined files)")
 	sched.Main(r, scs, 0)
 }
